@@ -102,6 +102,53 @@ def run(chk, replay=None):
                 chk.violate('runs before and after do not produce the same ciphertext with the same key file', case, tags=['reuse', 'history'])
         finally:
             shutil.rmtree(d, ignore_errors=True)
+    # spellings of the key path: the file the user NAMED (relative to the working directory, as the OS resolves it) is the one that is
+    # created / used / refused - whatever its first character
+    spellings = ['key.file', './key.file', '~team.key', '~keys/prod.key', '~', 'sp ace.key', 'k\u00e9y.key', 'sub/../key2.file', '-dash.key', '.hidden', 'a~b.key', '$HOME.key', '%s.key', None]
+    for sp in spellings:
+        for name in ('absent', 'valid', 'short'):
+            d = tempfile.mkdtemp(prefix='c11p_')
+            try:
+                open(os.path.join(d, 'in.log'), 'wb').write(LINES)
+                os.mkdir(os.path.join(d, 'home')); os.mkdir(os.path.join(d, 'sub')); os.mkdir(os.path.join(d, '~keys'))
+                rel = sp if sp is not None else 'anonymongo.enc.key'
+                kp = os.path.normpath(os.path.join(d, rel))
+                if name != 'absent':
+                    open(kp, 'wb').write(states[name]); os.chmod(kp, 0o600)
+                outs = []
+                for i in range(2):
+                    before = snapshot(kp)
+                    outp = os.path.join(d, 'out%d.log' % i)
+                    argv = [CLI, 'redact', 'in.log', '-o', outp, '-y'] + (['--encryptionKeyFile=' + sp] if sp is not None else [])
+                    p = subprocess.run(argv, stdin=subprocess.DEVNULL, capture_output=True, cwd=d, env={'PATH': '/usr/bin:/bin', 'HOME': os.path.join(d, 'home')})
+                    after = snapshot(kp)
+                    out = open(outp, 'rb').read() if os.path.exists(outp) else b''
+                    outs.append(out)
+                    chk.count(); chk.nontriv(('spelling', sp, name, i))
+                    case = {'key_path_as_given': sp if sp is not None else '(default)', 'state': name, 'run': i + 1, 'rc': p.returncode, 'stderr': p.stderr.decode('utf-8', 'replace')[-200:],
+                            'home_dir_now': sorted(os.listdir(os.path.join(d, 'home'))), 'cwd_now': sorted(os.listdir(d))}
+                    if os.listdir(os.path.join(d, 'home')):
+                        chk.violate('a key file appeared somewhere else than at the given path', case, tags=['keypath', 'elsewhere'])
+                    if name == 'short':
+                        if p.returncode == 0 or after != before or out.strip():
+                            chk.violate('unusable key at the given path: accepted, modified, or output emitted', case, tags=['keypath', 'unusable'])
+                    else:
+                        ok = p.returncode == 0 and after[0] == 'file' and out and b'secret' not in out
+                        if name == 'valid' or i == 1: ok = ok and after == before
+                        if not ok:
+                            chk.violate('the key file at the given path was not created / used / left untouched', dict(case, before=str(before)[:60], after=str(after)[:60]), tags=['keypath'])
+                if name != 'short' and outs[0] != outs[1]:
+                    chk.violate('two runs naming the same key path give different ciphertexts', {'key_path_as_given': sp, 'state': name}, tags=['keypath', 'reuse'])
+                if name == 'valid':
+                    # the ciphertexts must be the ones of THAT key: compare with a run that names the same file by its absolute path
+                    o = os.path.join(d, 'abs.log')
+                    subprocess.run([CLI, 'redact', os.path.join(d, 'in.log'), '-o', o, '-y', '-q', kp], stdin=subprocess.DEVNULL, capture_output=True)
+                    chk.count()
+                    if (open(o, 'rb').read() if os.path.exists(o) else b'') != outs[0]:
+                        chk.violate('the key at the given (relative) path is not the key that was used', {'key_path_as_given': sp}, tags=['keypath', 'otherkey'])
+            finally:
+                shutil.rmtree(d, ignore_errors=True)
+    chk.streams.append({'stream': 'CLI: spellings of the key path (relative, leading ~ . - $ %, blanks, non-ASCII, default) x {absent, valid, short} x 2 runs', 'spellings': len(spellings)})
     if len(set(keys_seen)) != len(keys_seen):
         chk.violate('two generated keys are equal', {'n': len(keys_seen)}, tags=['rng'])
     chk.dist('generated_keys', len(keys_seen))
